@@ -83,6 +83,19 @@ def gen_flow(tier: str, rng: random.Random) -> Iterator[Dict[str, Any]]:
                     steps.append({"s": "dt", "d": 0.01})
                     yield h2_script(steps, apps, "h2/flow/%d/%d/%d-%d/%s" % (nstreams, W, total, chunk, plan),
                                     settings={4: W}, autoack=False, maxchunk=chunk)
+    # SETTINGS_INITIAL_WINDOW_SIZE lowered below what the stream has already used: the stream window goes
+    # negative (RFC 7540 6.9.2); the rest follows once WINDOW_UPDATEs make it positive again
+    for W0, first, shrink_to, rest in ((40000, 40000, 39900, 5000), (10, 10, 4, 20), (30000, 20000, 100, 30000)):
+        prog = [["recv_body"], ["send", {"type": "http.response.start", "status": 200, "headers": []}],
+                ["send", {"type": "http.response.body", "pat": [105, 0, first], "more": True}], ["gate"],
+                ["send", {"type": "http.response.body", "pat": [105, first, rest], "more": False}], ["recv_disc"]]
+        steps = [build.h2_headers(1, 1, "GET", toks=[["/shrink", "/shrink"]]), {"s": "dt", "d": 0.01},
+                 {"s": "h2", "op": "settings", "values": {"4": shrink_to}}, {"s": "dt", "d": 0.01},
+                 {"s": "go", "app": "1", "n": 1}, {"s": "dt", "d": 0.01},
+                 {"s": "h2", "op": "wupd", "stream": 0, "n": first + rest + 100},
+                 {"s": "h2", "op": "wupd", "stream": 1, "n": (first - shrink_to) + rest + 100}, {"s": "dt", "d": 0.05}]
+        yield h2_script(steps, {"1": prog}, "h2/flow-shrink/%d/%d/%d" % (W0, shrink_to, rest), settings={4: W0}, autoack=False,
+                        maxchunk=max(first, rest))
     # boundary: the response fits the window exactly (no credit ever arrives), empty bodies at window 0,
     # body-less statuses at window 0, end-of-body sent separately after the data has been flushed
     for W in (0, 1, 100, 16384, 65535):
@@ -179,6 +192,31 @@ def gen_release(tier: str, rng: random.Random) -> Iterator[Dict[str, Any]]:
                     steps.append({"s": "dt", "d": 0.5})
                     yield h2_script(steps, apps, "h2/release/%s/%d/%d/%s" % (where, W, nstreams, cause),
                                     settings={4: W}, autoack=False, maxchunk=chunk)
+    # the stream object is gone but its buffer is still waited on when the connection closes: (a) the
+    # application abandons a response larger than the window (the server flushes before it resets), (b) a
+    # WebSocket over HTTP/2 whose close send waits for credit while the client's own close frame arrives
+    for cause in ("eof", "reset", "shutdown", "expire", "credit"):
+        prog = [["recv_body"], ["send", {"type": "http.response.start", "status": 200, "headers": []}],
+                ["send", {"type": "http.response.body", "pat": [106, 0, 20000], "more": True}], ["return"]]
+        steps = [build.h2_headers(1, 1, "GET", toks=[["/abandon", "/abandon"]]), {"s": "dt", "d": 0.01}]
+        if cause == "expire":
+            steps.append({"s": "dt", "d": 6.0})
+        elif cause == "credit":
+            steps += [{"s": "h2", "op": "wupd", "stream": 0, "n": 100000}, {"s": "h2", "op": "wupd", "stream": 1, "n": 100000}]
+        else:
+            steps.append({"s": cause})
+        steps.append({"s": "dt", "d": 0.5})
+        yield h2_script(steps, {"1": prog}, "h2/release/abandoned-at-window-0/%s" % cause, settings={4: 100}, autoack=False,
+                        maxchunk=20000)
+    from .gen_ws import ws_session
+    for cause in ("eof", "reset", "shutdown"):
+        prog = [["recv"], ["send", {"type": "websocket.accept"}], ["send", {"type": "websocket.send", "pat": [74, 0, 70000]}],
+                ["send", {"type": "websocket.close", "code": 1000}], ["recv_disc"]]
+        ws_steps = [{"s": "dt", "d": 0.01}, {"s": "ws", "op": "close", "code": 1000}, {"s": "dt", "d": 0.01}, {"s": cause},
+                    {"s": "dt", "d": 0.5}]
+        sc = ws_session("h2", 1, ws_steps, prog, "h2/release/ws-close-parked/%s" % cause)
+        sc["autoack"] = False
+        yield sc
     # HTTP/2 with wide-open windows and a client that stops reading: the send task waits in the transport's
     # drain, the application behind it on the stream buffer; then each cause
     for total, chunk in ((600000, 16384), (600000, 100000)):
@@ -391,7 +429,7 @@ def gen_h2_faults(tier: str, rng: random.Random) -> Iterator[Dict[str, Any]]:
     """C03/C05/C07 on HTTP/2: two streams, faults and crash points."""
     chunks = [3, 4]
     nops = len(std_ops(1, chunks))
-    ends: List[Any] = [("disc", nops)] + [(e, c) for c in range(nops + 1) for e in ("return", "raise", "cancel")]
+    ends: List[Any] = [("disc", nops)] + [(e, c) for c in range(nops + 1) for e in ("return", "raise", "cancel", "raise_group")]
     for end, cut in ends:
         for fault in ("none", "eof", "reset", "fail", "shutdown", "rst1", "expire"):
             if tier == "quick" and rng.random() < 0.5 and fault != "none":
@@ -443,6 +481,22 @@ def gen_h2_faults(tier: str, rng: random.Random) -> Iterator[Dict[str, Any]]:
             steps += [{"s": "dt", "d": ka - 0.001}, {"s": "dt", "d": 0.001}, {"s": "dt", "d": 1.0}]
             yield h2_script(steps, apps, "h2/busy-sibling/%s/%s" % (how, ka), bodies={"1": [1, 6], "2": [2, 0]},
                             cfg={"keep_alive_timeout": ka})
+    # a single request in progress for longer than the timeout on each way into HTTP/2 (ALPN; cleartext prior
+    # knowledge with the first HEADERS in the same read as the preface, and in a later read), then the idle rule
+    for carrier in ("h2", "h2prior"):
+        for first in ("same-read", "later-read"):
+            for ka in (5.0, 0.5):
+                steps: List[Dict[str, Any]] = []
+                if first == "later-read":
+                    steps += [{"s": "h2", "op": "preface"}, {"s": "dt", "d": 0.01}]
+                steps += [build.h2_headers(1, 1, "GET", toks=[["/slow", "/slow"]], scheme="https" if carrier == "h2" else "http"),
+                          {"s": "dt", "d": ka - 0.011 if first == "later-read" else ka - 0.001}, {"s": "dt", "d": 0.001}, {"s": "dt", "d": 2 * ka}]
+                steps += [{"s": "go", "app": "1", "n": 1} for _ in range(nops1 + 1)]
+                steps += [{"s": "dt", "d": ka - 0.001}, {"s": "dt", "d": 0.001}, {"s": "dt", "d": 1.0}]
+                sc = h2_script(steps, {"1": gated_app(std_ops(1, chunks), "disc")}, "h2/busy-single/%s/%s/%s" % (carrier, first, ka),
+                               carrier=carrier, cfg={"keep_alive_timeout": ka}, bodies={"1": [1, 0]})
+                sc["manual_preface"] = True   # the first step carries the preface (same-read: together with HEADERS)
+                yield sc
     # idle expiry with no stream, after streams closed; prior-knowledge cleartext connection
     for carrier in ("h2", "h2prior"):
         for history in ("fresh", "after-stream"):
